@@ -61,7 +61,39 @@ def tok(ins):
         return "e%d" % ins[1]
     if k == "pparam": return "P%d" % ins[1]
     if k == "params": return "(%d)" % ins[1]
+    if k == "badstart": return ("T%d" if BADSTART[ins[1]][1] else "t%d") % ins[2]
+    if k == "waitsum": return "T%d m%d" % (ins[1], ins[3])
     raise ValueError(ins)
+
+
+# A thread start that names a label which does not exist (`l` >= number of labels of the program; checked
+# in `script_line`).  Whatever the receiver and the file, the statement is a script error that the VM
+# reports and skips: for the machine it is `thread l` / `waitthread l` with `l` out of range (a no-op that
+# leaves no thread and no script instance).  (text, is-waitthread); `%(o)d` object, `%(l)d` label.
+# aux.scr is a second file served through the harness' `source` command; nofile.scr does not exist.
+AUX_NAME = "aux.scr"
+AUX_SRC = 'a0:\nprintln "aux"\nend\n'
+BADSTART = [
+    ("thread t%(l)d local", False),
+    ("waitthread t%(l)d local", True),
+    ("$o%(o)d thread t%(l)d local", False),
+    ("$o%(o)d waitthread t%(l)d local", True),
+    ("thread aux.scr::t%(l)d local", False),
+    ("waitthread aux.scr::t%(l)d local", True),
+    ("exec aux.scr::t%(l)d", False),
+    ("local.r = waitthread t%(l)d local", True),
+    ("local.r = $o%(o)d thread t%(l)d local", False),
+    ("thread nofile.scr::t%(l)d local", False),
+    ("$o%(o)d exec aux.scr::t%(l)d", False),
+    ("$o%(o)d waitexec aux.scr::t%(l)d", True),
+    ("local.r = waitthread aux.scr::t%(l)d local", True),
+    ("level thread t%(l)d local", False),
+]
+
+
+def source_line(name=AUX_NAME, src=AUX_SRC):
+    """stores a file the engine may open by name later (IFileManagement); no effect on the machine"""
+    return "source %s %s" % (name, src.encode().hex())
 
 
 def secs(ms):
@@ -108,6 +140,21 @@ def stmt(ins):
         if isinstance(ins[1], tuple): return "end local.p%d" % ins[1][1]
         return "end %d" % ins[1]
     if k == "pparam": return 'println "p" local.p%d' % ins[1]
+    if k == "badstart": return BADSTART[ins[1]][0] % {"l": ins[2], "o": ins[3] if len(ins) > 3 else 1}
+    if k == "waitsum":
+        # ("waitsum", label, form, expected): `waitthread` in expression position with the callee's result
+        # made visible: the caller is suspended with operands on its VM stack, and what it prints once the
+        # callee has ended is the marker `m<expected>` iff the result arrived in the right slot.
+        # expected = base + (the literal the callee ends with); the abstract form is `T<label> m<expected>`.
+        l, form, exp, v = ins[1], ins[2], ins[3], ins[4]
+        base = exp - v
+        if form == 0: return 'println ("m" + (%d + (waitthread t%d local)))' % (base, l)
+        if form == 1: return 'local.r = waitthread t%d local\nprintln ("m" + (local.r + %d))' % (l, base)
+        if form == 2: return 'local.q[1] = %d\nlocal.q[2] = (waitthread t%d local)\nprintln ("m" + (local.q[1] + local.q[2]))' % (base, l)
+        if form == 3: return 'level.r%d = waitthread t%d local\nprintln ("m" + (level.r%d + %d))' % (l, l, l, base)
+        if form == 4: return 'println ("m" + ((waitthread t%d local) + %d))' % (l, base)
+        if form == 5: return 'println ("m" + (%d + (%d + (%d + (waitthread t%d local)))))' % (base - 2, 1, 1, l)
+        raise ValueError(ins)
     raise ValueError(ins)
 
 
@@ -132,6 +179,9 @@ def script_line(prog, name="m"):
         if body and body[0][0] == "params":
             return ""
         return "(1) " if any(x[0] in PARENT_OPS for x in body) else ""
+    for body in prog:
+        for x in body:
+            assert x[0] != "badstart" or x[2] >= len(prog), "badstart must name a missing label"
     abstract = " / ".join(head(body) + " ".join(tok(x) for x in body) for body in prog)
     return "script %s %s ## %s" % (name, render(prog).encode().hex(), abstract)
 
@@ -483,3 +533,71 @@ def gen_vars_case(rng):
         lines.append("step %d" % rng.choice([50, 125, 125, 250, 300]))
     lines += ["step 1000", "step 1000"]
     return lines, src
+
+
+# ---------------------------------------------------------------------------------------------
+# thread starts at labels that do not exist (C13 "idle means empty": a failed start leaves nothing)
+
+HOST_BADCALLS = ["call m t%d", "callv m t%d", "call @m t%d", "callv @m t%d", "call m t%d i5 s6162"]
+
+
+def inject_badstarts(rng, prog, count=None):
+    """a copy of `prog` with thread starts at missing labels (every receiver / file form of BADSTART)
+    inserted at random positions of random bodies"""
+    prog = [list(b) for b in prog]
+    for _ in range(count or rng.randint(1, 4)):
+        body = rng.choice(prog)
+        lo = 1 if body and body[0][0] == "params" else 0
+        hi = len(body) - 1 if body and body[-1][0] == "end" else len(body)
+        pos = rng.randint(lo, max(lo, hi))
+        body.insert(pos, ("badstart", rng.randrange(len(BADSTART)), len(prog) + rng.randint(0, 3), rng.randint(1, 3)))
+    return prog
+
+
+def inject_host_badcalls(rng, lines, nlabels, count=None):
+    """host calls of labels that do not exist, between the commands that follow the first call"""
+    lines = list(lines)
+    first = next(i for i, l in enumerate(lines) if l.startswith("call"))
+    for _ in range(count if count is not None else rng.randint(0, 3)):
+        pos = rng.randint(first, len(lines) - 1)
+        lines.insert(pos, rng.choice(HOST_BADCALLS) % (nlabels + rng.randint(0, 3)))
+    return lines
+
+
+def gen_badlabel_case(rng):
+    r = rng.random()
+    if r < 0.5:
+        prog, ncalls = gen_sync_prog(rng), None
+    elif r < 0.8:
+        prog, ncalls = gen_timer_prog(rng), None
+    else:
+        prog, ncalls = gen_hub_prog(rng), 1
+    prog = inject_badstarts(rng, prog)
+    lines = gen_case(rng, prog, ncalls=ncalls)
+    lines = inject_host_badcalls(rng, lines, len(prog))
+    return [lines[0], source_line()] + lines[1:]
+
+
+def badlabel_family():
+    """deterministic: every BADSTART form before and after a timed wait, in the first thread, in a thread of
+    the same instance and in a `waitthread` callee (own instance), with every host form of a bad call"""
+    cases = []
+    for v in range(len(BADSTART)):
+        bad = ("badstart", v, 7, 1)
+        for shape in range(3):
+            if shape == 0:
+                prog = [[("spawn", 1), ("mark", 1), bad, ("mark", 2), ("wait", 125), ("mark", 3), bad, ("mark", 4)]]
+            elif shape == 1:
+                prog = [[("spawn", 1), ("mark", 1), ("thread", 1), ("mark", 2)],
+                        [("mark", 10), bad, ("mark", 11), ("wait", 125), bad, ("mark", 12), ("end", 5)]]
+            else:
+                prog = [[("spawn", 1), ("mark", 1), ("waitthread", 1), ("mark", 2), bad, ("mark", 3)],
+                        [("mark", 10), bad, ("mark", 11), ("wait", 125), bad, ("mark", 12), ("end", 5)]]
+            host = HOST_BADCALLS[(v + shape) % len(HOST_BADCALLS)] % (len(prog) + shape)
+            cases.append(["reset", source_line(), script_line(prog), "call m t0", host, "step 0", "step 125", host,
+                          "step 1000", "step 1000", "thread-result"])
+    # the host forms alone: nothing was ever started
+    for h in HOST_BADCALLS:
+        prog = [[("mark", 1)]]
+        cases.append(["reset", script_line(prog), h % 1, "step 0", h % 4, "step 1000", "thread-result"])
+    return cases
